@@ -72,9 +72,16 @@ func ProtoMarshal(v interface{}) ([]byte, error) {
 
 // ProtoUnmarshal parses the Protobuf-encoded data and stores the result
 // in the value pointed to by v.
-func ProtoUnmarshal(data []byte, v interface{}) error {
+func ProtoUnmarshal(data []byte, v interface{}) (err error) {
 	switch p := v.(type) {
 	case proto.Message:
+		// generated Unmarshal methods (older protoc-gen-gogo) index out of range on
+		// length fields that overflow; malformed input must yield an error, not a panic
+		defer func() {
+			if r := recover(); r != nil {
+				err = fmt.Errorf("protobuf codec: malformed message: %v", r)
+			}
+		}()
 		return proto.Unmarshal(data, p)
 	case nil, *struct{}, struct{}:
 		return nil
